@@ -34,6 +34,25 @@ func randomFeatureSwitches(rng *Rng) string {
 	return fmt.Sprintf("%+v", *s)
 }
 
+func featureSwitches() []*bool {
+	s := &config.Settings.Search
+	return []*bool{&s.UseQuiescence, &s.UseQSStandpat, &s.UseSEE, &s.UsePromNonQuiet, &s.UsePVS, &s.UseIID, &s.UseKiller,
+		&s.UseHistoryCounter, &s.UseCounterMoves, &s.UseTT, &s.UseTTMove, &s.UseTTValue, &s.UseQSTT, &s.UseMDP, &s.UseRazoring,
+		&s.UseRFP, &s.UseNullMove, &s.UseExt, &s.UseExtAddDepth, &s.UseCheckExt, &s.UseThreatExt, &s.UseFP, &s.UseQFP, &s.UseLmp, &s.UseLmr}
+}
+
+const nFeatureSwitches = 25
+
+// singleSwitchOff: the default configuration with exactly one feature switch inverted to off
+func singleSwitchOff(i int) string {
+	s := &config.Settings.Search
+	*s = savedSearchCfg
+	s.UseBook = false
+	s.TTSize = 2
+	*featureSwitches()[i] = false
+	return fmt.Sprintf("default with switch #%d off: %+v", i, *s)
+}
+
 func playable(mg *movegen.Movegen, start *position.Position, line []Move) (bool, int) {
 	p := *start
 	for i, m := range line {
@@ -74,11 +93,36 @@ func c05Monitor(args []string) int {
 		p, _ := position.NewPositionFen(fen)
 		positions = append([]GamePos{{Root: fen, P: p}}, positions...)
 	}
+	// wide positions (more than 64 legal moves: fixed-size move/reduction tables) searched a few
+	// hundred thousand nodes deep with every feature switch turned off singly
+	forceCfg := map[int]int{} // position index -> index of the switch that is off
+	wideNodes := map[int]uint64{}
+	{
+		shard := int(seed % 4)
+		k := 0
+		for _, fen := range []string{"q1qq2k1/5ppp/1q2q3/8/8/1Q2Q3/5PPP/Q1QQ2K1 w - - 0 1", "R6R/3Q4/1Q4Q1/4Q3/2Q4Q/Q4Q2/pp1Q4/kBNN1KB1 w - - 0 1"} {
+			for sw := 0; sw < nFeatureSwitches; sw++ {
+				k++
+				if n < 100 && k%4 != shard { // quick tier: the shards share the list
+					continue
+				}
+				p, _ := position.NewPositionFen(fen)
+				forceCfg[len(positions)] = sw
+				wideNodes[len(positions)] = 300000
+				positions = append(positions, GamePos{Root: fen, P: p})
+			}
+		}
+	}
+	wideEnd := len(positions)
+	_ = wideEnd
 	// sweep of tiny node limits: the stop fires inside the first iteration, between root moves,
 	// inside the first quiescence search, ... (cheap: a few dozen nodes each)
 	forceNodes := map[int]uint64{}
 	base := len(positions)
 	for k := 0; k < base; k += 2 {
+		if _, wide := forceCfg[k]; wide {
+			continue
+		}
 		for j := 1; j <= 48; j++ { // every limit: the window in which a stop lands between two root moves is one node wide
 			cp := *positions[k].P
 			forceNodes[len(positions)] = uint64(j)
@@ -142,6 +186,14 @@ func c05Monitor(args []string) int {
 			stopAfter = time.Duration(rng.Intn(30000)) * time.Microsecond
 			mode = fmt.Sprintf("ponder ponderhit=%v after %s", ponderhit, stopAfter)
 		}
+		if sw, ok := forceCfg[i]; ok {
+			cfgs = singleSwitchOff(sw)
+			*sl = *search.NewSearchLimits()
+			sl.Nodes = wideNodes[i]
+			stopAfter, ponderhit = -1, false
+			mode = fmt.Sprintf("nodes %d", sl.Nodes)
+			s.NewGame()
+		}
 		if fn, ok := forceNodes[i]; ok {
 			if fn%5 != 0 { // mostly a cold hash table: continuations come from the search, not from hash cuts
 				s.NewGame()
@@ -157,6 +209,7 @@ func c05Monitor(args []string) int {
 			mode = fmt.Sprintf("nodes %d", fn)
 		}
 		in := map[string]interface{}{"root": g.Root, "moves": movesUci(g.Moves), "fen": p.StringFen(), "limits": mode, "config": cfgs, "search_index": i}
+		setCurrent(in)
 		fenBefore, keyBefore := p.StringFen(), p.ZobristKey()
 		if os.Getenv("VERIF_TRACE") != "" {
 			fmt.Fprintf(os.Stderr, "TRACE search %d: %s | %s | moves %s | %s\n", i, g.Root, mode, movesUci(g.Moves), cfgs)
@@ -293,6 +346,7 @@ func c07Monitor(args []string) int {
 		}
 		depth := 2 + rng.Intn(5)
 		current = map[string]interface{}{"root": g.Root, "moves": movesUci(g.Moves), "fen": p.StringFen(), "depth": depth, "config": cfgName}
+		setCurrent(current)
 		legal := w.legalMoves(p)
 		r, _, ok := runDepthSearch(p, depth, 120*time.Second)
 		rep.Cases++
